@@ -9,8 +9,8 @@ from props import C06 as base
 PROP = "C08"
 META = {
     "technique": "Coq proof: the pipe's global inductive invariant (ownership of every slot as multiset accounting + ghost leases held by the pinned front slice or a parked slice) preserved by every operation of the model; tie: differential execution of the real linkedBuffer pair against the model (incl. the model's lease check) + an oracle that re-compares every handed-out slice after every later op",
-    "level_text": "Theorem C08: in every state reachable by ANY op sequence (writes, flushes, reads of any size, releases, and allocations / overwrites / frees by other owners interleaved arbitrarily) every live lease's slot is in no free list, is not a slice of the send buffer, is held by no other owner, and denotes exactly the bytes handed out; C08_release_frees: after ReleasePreviousRead every parked slot is free again; C08_lease_only_fast_*: only fast-path ReadBytes/Peek results alias shared memory, every slow-path result is a copy.",
-    "level_note": "Trusted: coqc kernel; model tied to /repo by sampled differential runs; level (i) only (no real sessions); sequential histories; Close leaves parked slices allocated (C09).",
+    "level_text": "Theorem C08: in every state reachable by ANY op sequence (writes, flushes, reads of any size, releases, and allocations / overwrites / frees by other owners interleaved arbitrarily) every live lease's slot is in no free list, is not a slice of the send buffer, is held by no other owner, and denotes exactly the bytes handed out; C08_release_frees: after ReleasePreviousRead every parked slot is free again; C08_lease_only_fast_*: only fast-path ReadBytes/Peek results alias shared memory, every slow-path result is a copy. Results that came through the socket fallback (heap slices) are covered by the level (ii) family: real session pairs, results kept while later events arrive on the connection.",
+    "level_note": "Trusted: coqc kernel; model tied to /repo by sampled differential runs (level (i) linkedBuffer pairs incl. the real Stream.ReleaseReadAndReuse; level (ii) real session pairs, fallback transport); sequential histories.",
 }
 
 FILES = None
@@ -19,17 +19,18 @@ FILES = None
 def files():
     hs = core.HARNESS
     fs = sorted(f for f in core.harness_files(PROP))
-    extra = os.path.join(hs, "c06_common_test.go")
-    return fs + [extra]
+    return fs + [os.path.join(hs, "c06_common_test.go"), os.path.join(hs, "c06_session_test.go")]
 
 
 def check(run):
     data, gerr = gen.regenerate()
     if gerr:
         run.add_corr_break("G: " + gerr)
+    base.ensure_switch(run)
     run.proof = core.proof_step(PROP, run.tier)
     n = 300 if run.tier == "quick" else 10000
-    cases, err = base.run_harness(PROP, "TestVerif_C08", n, run.seed, run.tier, files=files())
+    n2 = 30 if run.tier == "quick" else 800
+    cases, err = base.run_harness(PROP, "TestVerif_C08", n, run.seed, run.tier, files=files(), n2=n2)
     if err:
         run.add_corr_break("D: " + err)
         cases = []
@@ -44,13 +45,16 @@ def check(run):
         "samples": [base.short_case(c) for c in cases[:2]],
         "features": feats, "ops": ops, "zero_copy_results_tracked": held,
         "total_ops": sum(len(c["ops"]) for c in cases),
+        "level_ii_histories": sum(1 for c in cases if c.get("mode") == "c08s"),
+        "level_ii_note": "real session pairs, every flush through the socket fallback, the reader keeps ReadBytes/Peek results of "
+                         "fallback (heap) slices while later events arrive on the connection; model evaluated with cfg = []",
     })
     run.assumptions += [
         "level (i): linkedBuffer pair over a heap-backed bufferManager; Stream.Flush mirrored without queue/socket",
         "sequential histories (one goroutine drives writer, reader and the other owners)"]
 
     def search():
-        cs, e = base.run_harness(PROP, "TestVerif_C08", 3000, run.seed + 7919, "search", files=files())
+        cs, e = base.run_harness(PROP, "TestVerif_C08", 3000, run.seed + 7919, "search", files=files(), n2=150)
         found = []
         for c in cs or []:
             for m in c.get("oracle") or []:
